@@ -2,14 +2,24 @@
 chain machine - C23: RUN, CLEAR and NEW reset all state; CHAIN keeps exactly the COMMON variables.
 
 One run: a second program P2 is SAVEd on the scratch disk, a skeleton program P1 (COMMON list,
-DEF FN, DEFSTR, OPTION BASE, ON ERROR GOTO, DATA/READ, RND, GOSUB -> FOR -> STOP, CHAIN line) is
-entered and RUN until it STOPs inside the nested subroutine/loop; a random variable state (all
-types, arrays, 255-byte strings, optionally filled up to the memory limit) is then built with
-direct statements against a dict model; then one reset: CLEAR, NEW, RUN n, or CHAIN / CHAIN MERGE
-(ALL, DELETE, start line) executed from the program with the stacks live - under forced GC
-(seam S7), memory pressure and host errors on the chained file (simfs). Afterwards the state is
-probed from direct mode and compared with "fresh" (values of a fresh Session of the same
-configuration) and, for CHAIN, with the model's COMMON subset.
+DEF FN, DEFSTR, OPTION BASE, ON ERROR GOTO, DATA/READ, RND, CHAIN line) is entered and RUN until it
+is left with its stacks live, in one of several histories (cfg 'ctx' x 'hbody'):
+  ctx   sub   inside GOSUB -> FOR -> WHILE
+        errh  the same, but called from an ON ERROR handler that has not executed RESUME yet
+        evh   the same, but called from an ON KEY(2) GOSUB event-trap handler (F2 through the input queue)
+  hbody stop  the program executes STOP there
+        break the program loops on INKEY$ there and Ctrl+Break arrives through the simulated input
+              queue at a chosen poll
+A random variable state (all types, arrays, 255-byte strings, optionally filled up to the memory
+limit; random-access files opened on the scratch disk with string scalars and string-array elements
+FIELDed onto their record buffers and filled with LSET/RSET/GET) is then built with direct statements
+against a dict model; then one reset: CLEAR, NEW, RUN n, or CHAIN / CHAIN MERGE (ALL, DELETE, start
+line) - typed in direct mode with the stacks live, or (cfg 'via' = handler) executed by the program's
+own ON ERROR handler, i.e. from inside an unfinished error handler - under forced GC (seam S7), memory
+pressure and host errors on the chained file (simfs). Afterwards the state is probed from direct mode
+and compared with "fresh" (values of a fresh Session of the same configuration) and, for CHAIN, with
+the model's COMMON subset; finally a fresh program is entered and RUN, which must print nothing but
+its own output, and RESUME in it must be refused.
 """
 
 import os
@@ -25,26 +35,60 @@ from .errfn import ForcedGC, parse_trace, ERRNO_CODE
 
 NAME = 'chain'
 PROPS = ('C23',)
-RULE = ('one evaluation = one session history: build state, one reset (CLEAR/NEW/RUN/CHAIN variant), probe; '
-        'distinct = (reset kind, chain options, #commons bucket, #string vars bucket, free-memory bucket, '
-        'forced-gc on, io fault kind, outcome) ; non-trivial = at least one variable or array held a value '
-        'before the reset')
+RULE = ('one evaluation = one session history: leave the skeleton program inside a subroutine / unfinished error '
+        'handler / event-trap handler (by STOP or by Ctrl+Break at a poll), build state, one reset '
+        '(CLEAR/NEW/RUN/CHAIN variant, typed or executed by the error handler), probe; '
+        'distinct = (history, reset kind, issued from, chain options, #commons bucket, #string vars bucket, '
+        '#FIELD variables bucket, free-memory bucket, forced-gc on, io fault kind, outcome) ; non-trivial = at least '
+        'one variable or array held a value before the reset')
 REAL = ['pcbasic.basic (whole package)', 'pcbasic.basic.implementation (_clear_all, chain_, run_, new_, clear_)',
-        'pcbasic.basic.memory.memory (preserve_commons, collector)', 'pcbasic.basic.devices.disk on tmpfs',
-        'pcbasic.basic.program (save/load/merge)']
-STUB = ['wall clock (simulated)', 'interface queues (recording)', 'host FS errors (simfs fault plan)']
+        'pcbasic.basic.interpreter (clear, trap_error, resume_, event and error handler state)',
+        'pcbasic.basic.memory.memory (preserve_commons, collector, FIELD buffers)', 'pcbasic.basic.devices.disk on tmpfs',
+        'pcbasic.basic.devices.diskfiles (random files, FIELD)', 'pcbasic.basic.program (save/load/merge)']
+STUB = ['wall clock (simulated)', 'interface queues (recording; F2 and Ctrl+Break injected at chosen polls)',
+        'host FS errors (simfs fault plan)']
 ASSUMPTIONS = [
     'after CHAIN, OPTION BASE, DEF FN under ALL and DEFtype under MERGE are not judged (the property is silent; '
     'GW-BASIC documents them per option)',
     'a CHAIN that ends in Out of memory / Out of string space in a memory-pressure run is not judged',
+    'event traps (ON KEY GOSUB, KEY(n) ON) and ERR/ERL after a reset are not judged (the property is silent); '
+    'the event-trap handler only contributes its subroutine-stack entry',
+    'whether files are open after CLEAR/NEW/RUN is not judged; the PUT/GET round trip through the file left open by '
+    'CHAIN is reported under C25, not C23',
 ]
 BATCH = 10
 
 SCALARS = ['A$', 'B$', 'C$', 'LONGNAME$', 'I%', 'J%', 'X!', 'Y!', 'U#']
 ARRAYS = ['AR%', 'S$', 'F!', 'T$']
+STR_SCALARS = [v for v in SCALARS if v.endswith('$')]
+STR_ARRAYS = [a for a in ARRAYS if a.endswith('$')]
 FILL = 'F$'
 CHAIN_LINE = 300
 P2_LINE = 2000
+RUN_END_LINE = 100      # RUN 100 -> END
+RUN_TAIL_LINE = 990     # RUN 990 -> the last line of the program: runs off its end
+
+# random-access data files on the scratch disk: file number -> (name, record length); NREC records each
+FILES = {1: ('F1.DAT', 16), 2: ('F2.DAT', 40)}
+NREC = 3
+_ALNUM = 'abcdefghijklmnopqrstuvwxyzABCDEFGHIJKLMNOPQRSTUVWXYZ0123456789'
+
+# cfg keys added after the first version of this machine (so that older replay files stay executable)
+CFG_DEFAULTS = {
+    'ctx': 'sub', 'hbody': 'stop', 'via': 'direct', 'runto': RUN_END_LINE, 'p2end': 'end', 'p2trap': False,
+    'fresh_first': False, 'trap_first': False, 'key_poll': 30, 'brk_poll': 60,
+}
+
+
+def _full(cfg):
+    d = dict(CFG_DEFAULTS)
+    d.update(cfg)
+    return d
+
+
+def rec_text(fn, r):
+    """Contents of record r (1-based) of data file fn."""
+    return ''.join(_ALNUM[(fn * 17 + r * 11 + i * 7) % len(_ALNUM)] for i in range(FILES[fn][1]))
 
 
 def quick_runs(prop):
@@ -65,13 +109,41 @@ def _gen_sval(rng):
         return {'k': 'cat', 's': rng.choice(_WORDS), 't': rng.choice(_WORDS)}
     if r < 0.8:
         return {'k': 'rep', 'n': rng.choice([1, 2, 17, 100, 254, 255]), 'c': rng.choice('abcXYZ')}
-    return {'k': 'var', 'v': rng.choice([v for v in SCALARS if v.endswith('$')]), 's': rng.choice(_WORDS)}
+    return {'k': 'var', 'v': rng.choice(STR_SCALARS), 's': rng.choice(_WORDS)}
 
 
 def _gen_nval(rng, name):
     if name.endswith('%'):
         return rng.choice([0, 1, -1, 7, 255, -32768, 32767, rng.randint(-999, 999)])
     return rng.choice([0, 1, -1, 13, 15, 29, -31, 400, rng.randint(-4000, 4000)]) / 4.0
+
+
+def _gen_target(rng, prefer=()):
+    """A string scalar or string-array element: {'var': name} or {'arr': name, 'i': index}."""
+    if prefer and rng.random() < 0.7:
+        t = rng.choice(prefer)
+        if t.endswith('()'):
+            return {'arr': t[:-2], 'i': rng.choice([0, 1, 2, 3, 5, 10])}
+        return {'var': t}
+    if rng.random() < 0.55:
+        return {'var': rng.choice(STR_SCALARS)}
+    return {'arr': rng.choice(STR_ARRAYS), 'i': rng.choice([0, 1, 2, 3, 5, 10, 11])}
+
+
+def _gen_field(rng, fns, prefer=()):
+    fn = rng.choice(fns)
+    n = FILES[fn][1]
+    wd = min(n, rng.choice([1, 2, 4, 8, 12, n]))
+    off = rng.choice([0, 0, rng.randint(0, n - wd)])
+    op = {'op': 'field', 'fn': fn, 'off': off, 'w': wd}
+    op.update(_gen_target(rng, prefer))
+    return op
+
+
+def _gen_lset(rng, target=None):
+    op = {'op': 'lset', 'right': rng.random() < 0.3, 'sval': _gen_sval(rng)}
+    op.update(target if target is not None else _gen_target(rng))
+    return op
 
 
 def gen(rng, tier, prop):
@@ -90,6 +162,13 @@ def gen(rng, tier, prop):
     if faulty and reset == 'chain' and rng.random() < 0.3:
         k = rng.choice(['open', 'read', 'missing'])
         iofault = {'kind': k, 'errno': 'EIO' if k == 'read' else rng.choice(sorted(ERRNO_CODE)), 'r': 1}
+    # the history in which the state is built and the reset is issued
+    ctx = rng.choice(['sub', 'sub', 'errh', 'errh', 'evh'])
+    hbody = 'break' if rng.random() < 0.4 else 'stop'
+    key_poll = rng.randint(20, 60)
+    brk_poll = (key_poll if ctx == 'evh' else 20) + rng.randint(10, 90)
+    # an error raised inside an unfinished handler is not trapped: the handler can issue the reset only in the others
+    via = 'handler' if ctx != 'errh' and rng.random() < 0.4 else 'direct'
     cfg = {
         'session': {'max_memory': rng.choice([65534, 65534, 30000, 14000, 9000]) if faulty else 65534},
         'gc_k': rng.choice([1, 2, 3, 5, 11]) if faulty and rng.random() < 0.7 else 0,
@@ -100,11 +179,45 @@ def gen(rng, tier, prop):
         'deftype': rng.random() < 0.6,
         'base1': rng.random() < 0.4,
         'iofault': iofault,
+        'ctx': ctx,
+        'hbody': hbody,
+        'key_poll': key_poll,
+        'brk_poll': brk_poll,
+        'via': via,
+        'runto': rng.choice([RUN_END_LINE, RUN_TAIL_LINE]),
+        'p2end': rng.choice(['end', 'stop', 'off']),
+        'p2trap': rng.random() < 0.4,
+        'fresh_first': reset != 'chain' and rng.random() < 0.3,
+        'trap_first': rng.random() < 0.5,
         'world': {},
     }
+    usefiles = rng.random() < 0.55
+    str_common = [c for c in common if (c.endswith('$') or c.endswith('$()')) and not c.startswith(FILL)]
     ops = []
+    opened = []
+    if usefiles:
+        ops.append({'op': 'open', 'fn': 1, 'rec': rng.randint(1, NREC)})
+        opened.append(1)
+        if rng.random() < 0.4:
+            ops.append({'op': 'open', 'fn': 2, 'rec': rng.randint(1, NREC)})
+            opened.append(2)
     n = rng.randint(3, 14 if not thorough else 40)
     for _ in range(n):
+        if usefiles and rng.random() < 0.3:
+            q = rng.random()
+            fns = opened if rng.random() < 0.9 else [1, 2]
+            if q < 0.45:
+                ops.append(_gen_field(rng, fns))
+            elif q < 0.8:
+                ops.append(_gen_lset(rng))
+            elif q < 0.95:
+                ops.append({'op': 'get', 'fn': rng.choice(fns), 'rec': rng.randint(1, NREC)})
+            else:
+                fn = rng.choice([1, 2])
+                ops.append({'op': 'open', 'fn': fn, 'rec': rng.randint(1, NREC)})
+                if fn not in opened:
+                    opened.append(fn)
+            continue
         r = rng.random()
         if r < 0.40:
             v = rng.choice(SCALARS)
@@ -127,7 +240,7 @@ def gen(rng, tier, prop):
         elif r < 0.91:
             t = rng.choice(['$', 'n'])
             if t == '$':
-                a_, b_ = rng.sample([v for v in SCALARS if v.endswith('$')], 2)
+                a_, b_ = rng.sample(STR_SCALARS, 2)
             else:
                 s_ = rng.choice(['%', '!'])
                 a_, b_ = rng.sample([v for v in SCALARS if v.endswith(s_)], 2)
@@ -136,6 +249,13 @@ def gen(rng, tier, prop):
             ops.append({'op': 'gc'})
         elif faulty:
             ops.append({'op': 'fill', 'margin': rng.choice([200, 600, 1500, 4000]), 'max': rng.choice([8, 20, 60])})
+    if usefiles and rng.random() < 0.75:
+        # a variable that is attached to a record buffer holding data at the moment of the reset
+        # (preferably one that CHAIN has to carry over)
+        f = _gen_field(rng, opened, str_common)
+        ops.append(f)
+        if rng.random() < 0.6:
+            ops.append(_gen_lset(rng, {k: f[k] for k in ('var', 'arr', 'i') if k in f}))
     if faulty and rng.random() < 0.3:
         # long strings up to the memory limit, right before the reset
         ops.append({'op': 'fill', 'margin': rng.choice([300, 600, 1500, 4000]), 'max': rng.choice([20, 60, 250])})
@@ -143,15 +263,26 @@ def gen(rng, tier, prop):
 
 
 def simplify(cfg, ops):
+    full = _full(cfg)
     if cfg.get('gc_k'):
         yield dict(cfg, gc_k=0), ops
     if cfg.get('gc_k', 0) > 1:
         yield dict(cfg, gc_k=1), ops
     if cfg['session'].get('max_memory', 65534) != 65534:
         yield dict(cfg, session={'max_memory': 65534}), ops
-    for key in ('deftype', 'base1'):
+    for key in ('deftype', 'base1', 'p2trap', 'fresh_first', 'trap_first'):
         if cfg.get(key):
             yield dict(cfg, **{key: False}), ops
+    if full['via'] != 'direct':
+        yield dict(cfg, via='direct'), ops
+    if full['hbody'] != 'stop':
+        yield dict(cfg, hbody='stop'), ops
+    if full['ctx'] != 'sub':
+        yield dict(cfg, ctx='sub'), ops
+    if full['p2end'] != 'end':
+        yield dict(cfg, p2end='end'), ops
+    if full['runto'] != RUN_END_LINE:
+        yield dict(cfg, runto=RUN_END_LINE), ops
     if cfg.get('iofault') and cfg['iofault']['kind'] != 'missing':
         yield dict(cfg, iofault=dict(cfg['iofault'], kind='missing')), ops
     for key in ('merge', 'all', 'delete', 'line'):
@@ -167,13 +298,27 @@ def simplify(cfg, ops):
             yield cfg, ops[:i] + [dict(op, sval={'k': 'lit', 's': 'ab'})] + ops[i + 1:]
         if sv and sv['k'] == 'rep' and sv['n'] > 2:
             yield cfg, ops[:i] + [dict(op, sval=dict(sv, n=2))] + ops[i + 1:]
+        if op['op'] == 'field' and op['off']:
+            yield cfg, ops[:i] + [dict(op, off=0)] + ops[i + 1:]
 
 
 # ---------------------------------------------------------------------------
 # programs
 
+def _body_line(cfg):
+    """First line of the block in which the skeleton program is left."""
+    return 250 if cfg['hbody'] == 'break' else 200
+
+
+def _loop_lines(cfg):
+    """(line of the block's NEXT, line of its WEND)."""
+    return (265, 260) if cfg['hbody'] == 'break' else (220, 215)
+
+
 def p1_lines(cfg):
+    cfg = _full(cfg)
     ch = cfg['chain']
+    body = _body_line(cfg)
     lines = []
     if cfg['common']:
         # several COMMON statements, as a long program would have
@@ -193,12 +338,30 @@ def p1_lines(cfg):
     # (a string in string space from the start: keeps set-up clear of a known crash of the collector
     # with no permanent string, which is not this property's business)
     lines.append('80 Q!=RND:Q!=RND:Q9$="q"+"9"')
-    lines.append('90 GOSUB 200')
-    lines.append('100 END')
+    if cfg['ctx'] == 'errh':
+        # trapped at 900, which hands over to 800: the block is entered from an unfinished error handler
+        lines.append('90 ERROR 77')
+    elif cfg['ctx'] == 'evh':
+        # F2 arrives while line 90 spins: the block is entered from the event-trap handler at 700
+        lines.append('85 ON KEY(2) GOSUB 700:KEY(2) ON')
+        lines.append('90 FOR W9=1 TO 600:NEXT')
+        lines.append('95 PRINT "#NOEVENT|"')
+    else:
+        lines.append('90 GOSUB %d' % body)
+    lines.append('%d END' % RUN_END_LINE)
+    # the block left by STOP
     lines.append('200 FOR L9=1 TO 3')
+    lines.append('205 WHILE L9<9')
     lines.append('210 STOP')
+    lines.append('215 WEND')
     lines.append('220 NEXT')
     lines.append('230 RETURN')
+    # the block left by Ctrl+Break
+    lines.append('250 FOR L9=1 TO 3')
+    lines.append('255 WHILE INKEY$=""')
+    lines.append('260 WEND')
+    lines.append('265 NEXT')
+    lines.append('270 RETURN')
     name = 'NOFILE' if (cfg.get('iofault') or {}).get('kind') == 'missing' else 'P2'
     txt = '%d CHAIN %s"%s"' % (CHAIN_LINE, 'MERGE ' if ch['merge'] else '', name)
     if ch['line'] or ch['all'] or ch['delete']:
@@ -212,12 +375,34 @@ def p1_lines(cfg):
             txt += (',' if ch['all'] else '') + 'DELETE 60-230'
     lines.append(txt)
     lines.append('%d END' % (CHAIN_LINE + 10))
-    lines.append('900 PRINT "#E|";ERR;"|";ERL;"|":RESUME NEXT')
+    # the reset issued by the error handler: ERROR 99 is trapped at 900, which goes to the reset statement
+    lines.append('400 ERROR 99')
+    lines.append('410 END')
+    lines.append('700 GOSUB %d' % body)
+    lines.append('710 RETURN')
+    lines.append('800 GOSUB %d' % body)
+    lines.append('810 RESUME NEXT')
+    lines.append('900 IF ERR=77 THEN 800')
+    lines.append('905 IF ERR=99 THEN %d' % {'clear': 950, 'new': 960, 'run': 970, 'chain': CHAIN_LINE}[cfg['reset']])
+    lines.append('910 PRINT "#E|";ERR;"|";ERL;"|":RESUME NEXT')
+    lines.append('950 CLEAR')
+    lines.append('955 STOP')
+    lines.append('960 NEW')
+    lines.append('970 RUN %d' % cfg['runto'])
+    lines.append('%d PRINT "#R|"' % RUN_TAIL_LINE)
     return lines
 
 
 def p2_lines(cfg):
+    cfg = _full(cfg)
     lines = ['%d PRINT "#P2|"' % P2_LINE]
+    if cfg['p2trap']:
+        # the chained program sets its own error trap, which must work as in a program started afresh
+        lines.append('%d GOTO %d' % (P2_LINE + 2, P2_LINE + 6))
+        lines.append('%d PRINT "#T|";ERR;"|":RESUME NEXT' % (P2_LINE + 4))
+        lines.append('%d ON ERROR GOTO %d' % (P2_LINE + 6, P2_LINE + 4))
+        lines.append('%d ERROR 98' % (P2_LINE + 7))
+        lines.append('%d ON ERROR GOTO 0' % (P2_LINE + 8))
     n = P2_LINE + 10
     for v in SCALARS:
         if v.endswith('$'):
@@ -226,7 +411,11 @@ def p2_lines(cfg):
             lines.append('%d PRINT "#N|%s|";%s;"|"' % (n, v, v))
         n += 10
     lines.append('%d PRINT "#P2END|"' % n)
-    lines.append('%d END' % (n + 10))
+    # the chained program ends with END, with STOP (files stay open) or by running off its last line
+    if cfg['p2end'] == 'end':
+        lines.append('%d END' % (n + 10))
+    elif cfg['p2end'] == 'stop':
+        lines.append('%d STOP' % (n + 10))
     return lines
 
 
@@ -237,14 +426,47 @@ def _fresh(name):
     return '' if name.endswith('$') else 0
 
 
+def _tkey(op):
+    """Text of the string variable an op refers to (also its key in Model.fld)."""
+    return op['var'] if 'var' in op else '%s(%d)' % (op['arr'], op['i'])
+
+
 class Model(object):
     def __init__(self, cfg):
         self.base = 1 if cfg['base1'] else 0
         self.sc = {}
         self.ar = {}        # name -> list indexed 0..n (index 0 unused under base 1)
+        self.files = set()  # numbers of the open random-access files
+        self.buf = {}       # file number -> contents of its record buffer (str)
+        self.fld = {}       # 'A$' / 'S$(3)' -> (file number, offset, width): variable lives in that record buffer
+
+    def kget(self, key):
+        """Value of the variable or array element written as in BASIC."""
+        f = self.fld.get(key)
+        if f is not None:
+            return self.buf[f[0]][f[1]:f[1] + f[2]]
+        if '(' in key:
+            name, i = key[:-1].split('(')
+            return self.ar[name][int(i)]
+        return self.sc.get(key, _fresh(key))
+
+    def kput(self, key, s):
+        """Store in place (LSET/RSET: same length)."""
+        f = self.fld.get(key)
+        if f is not None:
+            fn, off, wd = f
+            self.buf[fn] = self.buf[fn][:off] + s + self.buf[fn][off + wd:]
+        elif '(' in key:
+            name, i = key[:-1].split('(')
+            self.ar[name][int(i)] = s
+        else:
+            self.sc[key] = s
 
     def sget(self, name):
-        return self.sc.get(name, _fresh(name))
+        return self.kget(name)
+
+    def eget(self, name, i):
+        return self.kget('%s(%d)' % (name, i))
 
     def sval(self, sv):
         k = sv['k']
@@ -294,7 +516,7 @@ def _same(a, b_):
 def run(case):
     simfs.install_fs_seams()
     logging.disable(logging.CRITICAL)
-    cfg = case['cfg']
+    cfg = _full(case['cfg'])
     ops = case['ops']
 
     def body(run):
@@ -302,6 +524,10 @@ def run(case):
         scratch = run.make_scratch()
         root = os.path.join(scratch, 'c')
         os.makedirs(root)
+        # the data files (written before the world is active: plain host I/O)
+        for fn in sorted(FILES):
+            with open(os.path.join(root, FILES[fn][0]), 'wb') as f:
+                f.write(b(''.join(rec_text(fn, r) for r in range(1, NREC + 1))))
         fs = simfs.SimFS(w, [scratch])
         sk = dict(cfg.get('session', {}))
         pressure = sk.get('max_memory', 65534) < 65534
@@ -331,9 +557,18 @@ def run(case):
             must('NEW')
             for l in P1:
                 must(l)
+            # ---- leave the skeleton inside its subroutine / handler, by STOP or by Ctrl+Break
+            if cfg['ctx'] == 'evh':
+                w.at_poll(cfg['key_poll'], K.sig_key(u'\x00\x3c', 0x3c, ()))
+            if cfg['hbody'] == 'break':
+                w.at_poll(cfg['brk_poll'], K.sig_break())
+                left_at = (b'Break in 255\xff', b'Break in 260\xff')
+            else:
+                left_at = (b'Break in 210\xff',)
             r = d.exec(b'RUN')
-            if b'Break in 210' not in r.out:
-                raise K.HarnessError('skeleton did not stop in 210: %r' % (r,))
+            if r.errs or not any(x in r.out for x in left_at) or b'#' in r.out:
+                raise K.HarnessError('skeleton was not left in %r: %r' % (left_at, r))
+            run.probe('left-in:%s:%s' % (cfg['ctx'], cfg['hbody']))
             gc.k = int(cfg.get('gc_k') or 0)
             # ---- build the variable state
             m = Model(cfg)
@@ -353,17 +588,19 @@ def run(case):
             iof = cfg.get('iofault')
             outcome = 'ok'
             failed_chain = False
-            if reset == 'clear':
-                r = d.exec(b'CLEAR')
-            elif reset == 'new':
-                r = d.exec(b'NEW')
-            elif reset == 'run':
-                r = d.exec(b'RUN 100')
+            # (an error raised inside an unfinished error handler is not trapped, so there the reset is typed)
+            via = cfg['via'] if cfg['ctx'] != 'errh' else 'direct'
+            if via == 'handler':
+                cmd = 'GOTO 400'
+            else:
+                cmd = {'clear': 'CLEAR', 'new': 'NEW', 'run': 'RUN %d' % cfg['runto'], 'chain': 'GOTO %d' % CHAIN_LINE}[reset]
+            if reset != 'chain':
+                r = d.exec(b(cmd))
             else:
                 if iof and iof['kind'] in ('open', 'read'):
                     fs.arm(iof['kind'], nth=1, err=getattr(_errno, iof['errno']), path_sub='P2.BAS', repeat=iof['r'])
                 try:
-                    r = d.exec(b'GOTO %d' % CHAIN_LINE, poll_cap=40000)
+                    r = d.exec(b(cmd), poll_cap=40000)
                 except EngineCrash as e:
                     if iof and fs.fired:
                         # a host error on the chained file that escapes as a Python exception: C01's oracle
@@ -379,7 +616,11 @@ def run(case):
             errs = [e for e in ev if e[0] in ('stop', 'derr')] + [e for e in ev if e[0] == '#' and e[1] == 'E']
             if reset != 'chain':
                 if errs:
-                    run.violate('C23', 'reset-statement-error:%s' % reset, '%s -> %r' % (reset, r))
+                    run.violate('C23', 'reset-statement-error:%s' % reset, '%s -> %r\n%s' % (cmd, r, _ctx(cfg)))
+                    outcome = 'error'
+                elif ((via == 'handler' and reset == 'clear' and ('break', 955) not in ev)
+                        or (reset == 'run' and cfg['runto'] == RUN_TAIL_LINE and not any(e[0] == '#' and e[1] == 'R' for e in ev))):
+                    run.violate('C23', 'reset-statement-error:%s:statement-not-reached' % reset, '%s -> %r\n%s' % (cmd, r, _ctx(cfg)))
                     outcome = 'error'
             else:
                 reached = any(e[0] == '#' and e[1] == 'P2' for e in ev)
@@ -394,26 +635,55 @@ def run(case):
                         run.probe('chain-out-of-memory')
                     else:
                         run.violate('C23', 'chain-failed:%s' % ('error-%s' % codes[0] if codes else 'p2-not-reached'),
-                                    'CHAIN without fault or memory pressure did not reach the chained program: %r\n'
-                                    'P1:\n%s' % (r, '\n'.join(P1)))
+                                    'CHAIN without fault or memory pressure did not reach the chained program, or the chained '
+                                    'program did not run clean: %r\n%s' % (r, _ctx(cfg)))
                 elif iof and iof['kind'] != 'missing' and not fs.fired:
                     run.probe('io-fault-not-fired')
-            run.state(reset, tuple(sorted(k for k in ch if ch[k])) if reset == 'chain' else (), len(cfg['common']) // 3,
-                      sum(1 for v in m.sc if v.endswith('$') and m.sc[v]) // 2, int(free) // 8000, bool(cfg.get('gc_k')),
-                      iof['kind'] if iof else '-', outcome)
+            nfld = len(m.fld)
+            run.state(cfg['ctx'], cfg['hbody'], via, reset, tuple(sorted(k for k in ch if ch[k])) if reset == 'chain' else (),
+                      len(cfg['common']) // 3, sum(1 for v in STR_SCALARS if m.sget(v)) // 2, min(nfld, 3),
+                      int(free) // 8000, bool(cfg.get('gc_k')), iof['kind'] if iof else '-', outcome)
             if nontrivial:
                 run.probe('nontrivial-state')
+            if nfld:
+                run.probe('reset-with-field-variables')
             # ---- judge
             if reset == 'chain' and not failed_chain:
                 judge_chain(run, d, m, cfg, ev, r)
+                if cfg['p2end'] == 'stop' and not (pressure or free < 4000):
+                    probe_random_file(run, d, m, root, 'chain')
+                probe_fresh_program(run, d, cfg, 'chain')
             elif reset != 'chain' and outcome == 'ok':
-                judge_reset(run, d, cfg, reset, r0, fre_new, fre_prog, sk, after_failed_chain=False)
+                if cfg['fresh_first']:
+                    # (the fresh program replaces P1 and ends with NEW: what follows is judged as after NEW)
+                    probe_fresh_program(run, d, cfg, reset)
+                    judge_reset(run, d, cfg, 'new', r0, fre_new, fre_prog, sk, after_failed_chain=False,
+                                label=reset + '+fresh-program+new')
+                else:
+                    judge_reset(run, d, cfg, reset, r0, fre_new, fre_prog, sk, after_failed_chain=False)
+                    probe_fresh_program(run, d, cfg, reset)
             if failed_chain:
                 # whatever a failed CHAIN left behind, NEW must give a fresh machine
                 r = d.exec(b'NEW')
                 judge_reset(run, d, cfg, 'new', r0, fre_new, fre_prog, sk, after_failed_chain=True)
+                probe_fresh_program(run, d, cfg, 'new-after-failed-chain')
             d.close()
     return execute(case, body)
+
+
+def _touch_elem(m, name, i):
+    """Model of a reference to name(i): dimensions the array on first use; returns the error it gives."""
+    if name not in m.ar:
+        # first reference dimensions the array (also when the subscript is out of range)
+        m.ar[name] = [_fresh(name)] * 11
+    return 9 if (i > len(m.ar[name]) - 1 or i < m.base) else None
+
+
+def _pressure_resync(run, d, m, name=None):
+    """A statement failed for lack of memory: its implicit DIM may or may not have happened."""
+    run.probe('setup-pressure-error')
+    if name is not None and name not in m.ar and d.get(b(name + '()')) != []:
+        m.ar[name] = [_fresh(name)] * 11
 
 
 def build_state(run, d, m, ops, pressure):
@@ -432,6 +702,8 @@ def build_state(run, d, m, ops, pressure):
                 exp_err = None
             r = d.exec(b(txt))
             if _setup_ok(run, r, exp_err, pressure, txt):
+                # (assignment detaches a FIELD variable from its buffer)
+                m.fld.pop(name, None)
                 m.sc[name] = val
                 nontrivial = nontrivial or bool(val)
         elif k == 'dim':
@@ -449,22 +721,14 @@ def build_state(run, d, m, ops, pressure):
                 val = op['nval']
                 txt = '%s(%d)=%s' % (name, i, nval_text(val))
             r = d.exec(b(txt))
-            size = len(m.ar[name]) - 1 if name in m.ar else 10
-            exp_err = None
-            if i > size or i < m.base:
-                exp_err = 9
-            elif isinstance(val, str) and len(val) > 255:
-                exp_err = 15
             if _err(r) in (7, 14) and pressure:
-                # the implicit DIM may or may not have happened: resynchronise from the engine
-                run.probe('setup-pressure-error')
-                if name not in m.ar and d.get(b(name + '()')) != []:
-                    m.ar[name] = [_fresh(name)] * 11
+                _pressure_resync(run, d, m, name)
                 continue
-            if name not in m.ar and exp_err in (None, 9, 15):
-                # first reference dimensions the array (also when the subscript is out of range)
-                m.ar[name] = [_fresh(name)] * 11
+            exp_err = _touch_elem(m, name, i)
+            if exp_err is None and isinstance(val, str) and len(val) > 255:
+                exp_err = 15
             if _setup_ok(run, r, exp_err, pressure, txt):
+                m.fld.pop('%s(%d)' % (name, i), None)
                 m.ar[name][i] = val
                 nontrivial = nontrivial or bool(val)
         elif k == 'erase':
@@ -472,6 +736,8 @@ def build_state(run, d, m, ops, pressure):
             r = d.exec(b('ERASE %s' % name))
             if _setup_ok(run, r, None if name in m.ar else 5, pressure, 'ERASE ' + name):
                 del m.ar[name]
+                for key in [key for key in m.fld if key.startswith(name + '(')]:
+                    del m.fld[key]
         elif k == 'swap':
             r = d.exec(b('SWAP %s,%s' % (op['a'], op['b'])))
             if _err(r) in (7, 14) and pressure:
@@ -483,8 +749,14 @@ def build_state(run, d, m, ops, pressure):
             exp_err = None if (op['b'] in m.sc or _err(r) is None) else 5
             m.sc.setdefault(op['a'], _fresh(op['a']))
             if _setup_ok(run, r, exp_err, pressure, 'SWAP %s,%s' % (op['a'], op['b'])):
-                va, vb = m.sget(op['a']), m.sget(op['b'])
+                # the variables' descriptors change places: an attachment to a record buffer goes along
+                fa, fb = m.fld.pop(op['a'], None), m.fld.pop(op['b'], None)
+                va, vb = m.sc.get(op['a'], _fresh(op['a'])), m.sc.get(op['b'], _fresh(op['b']))
                 m.sc[op['a']], m.sc[op['b']] = vb, va
+                if fb is not None:
+                    m.fld[op['a']] = fb
+                if fa is not None:
+                    m.fld[op['b']] = fa
         elif k == 'gc':
             d.exec(b'Z9=FRE("")')
         elif k == 'fill':
@@ -506,6 +778,67 @@ def build_state(run, d, m, ops, pressure):
                 m.ar[FILL][i] = ch * 255
                 nontrivial = True
             run.probe('filled-to-margin')
+        elif k == 'open':
+            # open the data file for random access and read a record, so that the buffer's contents are defined
+            fn = op['fn']
+            txt = 'OPEN "R",#%d,"%s",%d' % (fn, FILES[fn][0], FILES[fn][1])
+            r = d.exec(b(txt))
+            if _setup_ok(run, r, 55 if fn in m.files else None, pressure, txt):
+                m.files.add(fn)
+            txt = 'GET #%d,%d' % (fn, op['rec'])
+            r = d.exec(b(txt))
+            if _setup_ok(run, r, None, pressure, txt):
+                m.buf[fn] = rec_text(fn, op['rec'])
+        elif k == 'get':
+            fn = op['fn']
+            txt = 'GET #%d,%d' % (fn, op['rec'])
+            r = d.exec(b(txt))
+            if _setup_ok(run, r, None if fn in m.files else 54, pressure, txt):
+                m.buf[fn] = rec_text(fn, op['rec'])
+        elif k == 'field':
+            # attach a string scalar or array element to `w` bytes at offset `off` of the record buffer
+            # (D9$ is a filler for the bytes before it)
+            fn, off, wd = op['fn'], op['off'], op['w']
+            key = _tkey(op)
+            txt = 'FIELD #%d,%s%d AS %s' % (fn, '%d AS D9$,' % off if off else '', wd, key)
+            r = d.exec(b(txt))
+            if _err(r) in (7, 14) and pressure:
+                # (the memory check precedes the attachment: the target is as it was)
+                _pressure_resync(run, d, m, op.get('arr'))
+                continue
+            if fn not in m.files:
+                exp_err = 52
+            elif 'arr' in op:
+                exp_err = _touch_elem(m, op['arr'], op['i'])
+            else:
+                exp_err = None
+            if _setup_ok(run, r, exp_err, pressure, txt):
+                if 'var' in op:
+                    m.sc.setdefault(op['var'], '')
+                m.fld[key] = (fn, off, wd)
+                nontrivial = True
+                run.probe('field-attached')
+        elif k == 'lset':
+            # LSET/RSET: justify into the variable's present length, in place (in the record buffer for a FIELD variable)
+            val = m.sval(op['sval'])
+            key = _tkey(op)
+            txt = '%s %s=%s' % ('RSET' if op.get('right') else 'LSET', key, sval_text(op['sval']))
+            r = d.exec(b(txt))
+            if _err(r) in (7, 14) and pressure:
+                _pressure_resync(run, d, m, op.get('arr'))
+                continue
+            if 'arr' in op:
+                exp_err = _touch_elem(m, op['arr'], op['i'])
+            else:
+                exp_err = None
+                m.sc.setdefault(op['var'], '')
+            if exp_err is None and len(val) > 255:
+                exp_err = 15
+            if _setup_ok(run, r, exp_err, pressure, txt):
+                n = len(m.kget(key))
+                m.kput(key, val[:n].rjust(n) if op.get('right') else val[:n].ljust(n))
+                if key in m.fld and n:
+                    run.probe('field-variable-written')
     return nontrivial
 
 
@@ -551,8 +884,8 @@ def readback(d, m, names_s, names_a):
             continue
         for i in range(m.base, len(m.ar[name])):
             got = d.eval(b('%s(%d)' % (name, i)))
-            if not _same(got, m.ar[name][i]):
-                diffs.append(('%s(%d)' % (name, i), got, m.ar[name][i]))
+            if not _same(got, m.eget(name, i)):
+                diffs.append(('%s(%d)' % (name, i), got, m.eget(name, i)))
     return diffs
 
 
@@ -576,15 +909,20 @@ def judge_chain(run, d, m, cfg, ev, r):
     common = set(cfg['common'])
     keep_all = ch['all']
     opts = '+'.join(k for k in ('merge', 'all', 'delete', 'line') if ch[k]) or 'plain'
-    # expected model after the chain
+    # expected model after the chain: the values, wherever they lived (string space, program text, record buffer)
     exp = Model(cfg)
     for name in SCALARS:
         if keep_all or name in common:
             if name in m.sc:
-                exp.sc[name] = m.sc[name]
+                exp.sc[name] = m.sget(name)
     for name in ARRAYS + [FILL]:
         if (keep_all or (name + '()') in common) and name in m.ar:
-            exp.ar[name] = list(m.ar[name])
+            exp.ar[name] = [m.ar[name][i] if i < m.base else m.eget(name, i) for i in range(len(m.ar[name]))]
+
+    def fsuffix(name):
+        # a variable that was attached to a record buffer when CHAIN ran is its own class of input
+        return ':field-variable' if name in m.fld else ''
+
     # (1) what the chained program itself saw
     for e in ev:
         if e[0] != '#' or not e[3]:
@@ -593,7 +931,8 @@ def judge_chain(run, d, m, cfg, ev, r):
             name, ln, left, right = e[2][0], e[2][1], e[2][2], e[2][3]
             val = exp.sget(name)
             if (ln.strip(), left, right) != (str(len(val)), val[:16], val[-16:] if val else ''):
-                run.violate('C23', 'chain:%s:string-in-chained-program:%s' % (opts, 'common-changed' if val else 'non-common-survives'),
+                run.violate('C23', 'chain:%s:string-in-chained-program:%s%s' % (
+                                opts, 'common-changed' if val else 'non-common-survives', fsuffix(name)),
                             'chained program printed %s len %s %r..%r, expected %s\n%s' % (name, ln, left, right, _short(val), _ctx(cfg)))
         elif e[1] == 'N':
             name, txt = e[2][0], e[2][1]
@@ -607,6 +946,12 @@ def judge_chain(run, d, m, cfg, ev, r):
                             'chained program printed %s = %r, expected %r\n%s' % (name, txt, val, _ctx(cfg)))
     if not any(e[0] == '#' and e[1] == 'P2END' for e in ev):
         run.violate('C23', 'chain:%s:chained-program-did-not-finish' % opts, '%r\n%s' % (r, _ctx(cfg)))
+    if cfg['p2trap']:
+        # nothing of the previous program's error handling is left: the chained program's own trap takes its error
+        t = [e for e in ev if e[0] == '#' and e[1] == 'T']
+        if len(t) != 1 or not t[0][3] or [x.strip() for x in t[0][2]] != ['98']:
+            run.violate('C23', 'chain:%s:error-trap-set-by-chained-program-not-honoured' % opts,
+                        'ON ERROR GOTO / ERROR 98 in the chained program -> %r\n%s' % (r, _ctx(cfg)))
     # (2) after it ended: full contents
     diffs = readback(d, exp, SCALARS, ARRAYS + [FILL])
     for name, got, want in diffs:
@@ -614,12 +959,18 @@ def judge_chain(run, d, m, cfg, ev, r):
         is_common = keep_all or base in common or (base + '()') in common
         kind = 'array' if '(' in name else 'scalar'
         typ = 'string' if base.endswith('$') else 'number'
-        run.violate('C23', 'chain:%s:%s-%s:%s' % (opts, typ, kind, 'common-lost-or-changed' if is_common else 'non-common-survives'),
-                    '%s reads %s after CHAIN, expected %s (common list %r, ALL=%s)\n%s' % (
-                        name, _short(got), _short(want), cfg['common'], keep_all, _ctx(cfg)))
+        run.violate('C23', 'chain:%s:%s-%s:%s%s' % (opts, typ, kind, 'common-lost-or-changed' if is_common else 'non-common-survives',
+                                                    fsuffix(name) if is_common else ''),
+                    '%s reads %s after CHAIN, expected %s (common list %r, ALL=%s; before CHAIN %s)\n%s' % (
+                        name, _short(got), _short(want), cfg['common'], keep_all,
+                        'it was FIELDed onto %d bytes at offset %d of the record buffer of file #%d' % (
+                            m.fld[name][2], m.fld[name][1], m.fld[name][0]) if name in m.fld else 'it was an ordinary variable',
+                        _ctx(cfg)))
     run.probe('chain-judged')
     if any(exp.sc.get(v) for v in exp.sc if v.endswith('$')) or any(x for a in exp.ar if a.endswith('$') for x in exp.ar[a]):
         run.probe('chain-with-live-common-strings')
+    if any(m.kget(key) for key in m.fld if key in exp.sc or ('(' in key and key.split('(')[0] in exp.ar)):
+        run.probe('chain-with-common-field-variables')
     # (3) everything else is cleared (plain CHAIN only for FN and DEFtype, see ASSUMPTIONS)
     probe_stacks_and_trap(run, d, 'chain:' + opts)
     if not ch['all']:
@@ -640,8 +991,16 @@ def judge_chain(run, d, m, cfg, ev, r):
 
 
 def _ctx(cfg):
-    return 'P1:\n%s\ncfg: gc_k=%s max_memory=%s p2fmt=%s iofault=%r' % (
-        '\n'.join(p1_lines(cfg)), cfg.get('gc_k'), cfg['session'].get('max_memory'), cfg['p2fmt'], cfg.get('iofault'))
+    cfg = _full(cfg)
+    how = {'sub': 'inside GOSUB/FOR/WHILE', 'errh': 'inside GOSUB/FOR/WHILE called from the unfinished ON ERROR handler (900 -> 800)',
+           'evh': 'inside GOSUB/FOR/WHILE called from the ON KEY(2) handler at 700 (F2 pushed at poll %d of RUN)' % cfg['key_poll']}[cfg['ctx']]
+    left = 'by STOP in 210' if cfg['hbody'] == 'stop' else 'by Ctrl+Break pushed at poll %d of RUN (INKEY$ loop at 255)' % cfg['brk_poll']
+    via = cfg['via'] if cfg['ctx'] != 'errh' else 'direct'
+    return ('P1 (RUN and left %s, %s; then the state is built in direct mode and the reset %s):\n%s\n'
+            'cfg: reset=%s gc_k=%s max_memory=%s p2fmt=%s p2end=%s iofault=%r' % (
+                how, left, 'is typed' if via == 'direct' else 'is executed by the error handler (GOTO 400 -> ERROR 99 -> 900)',
+                '\n'.join(p1_lines(cfg)), cfg['reset'], cfg.get('gc_k'), cfg['session'].get('max_memory'), cfg['p2fmt'],
+                cfg['p2end'], cfg.get('iofault')))
 
 
 def probe_stacks_and_trap(run, d, what):
@@ -664,8 +1023,93 @@ def probe_stacks_and_trap(run, d, what):
                     'PRINT 1/0:PRINT "#soft" -> %r (expected the Division by zero message, the maximum and #soft)' % (rr,))
 
 
-def judge_reset(run, d, cfg, reset, r0, fre_new, fre_prog, sk, after_failed_chain):
-    what = reset + ('-after-failed-chain' if after_failed_chain else '')
+def probe_new_trap(run, d, cfg, what):
+    """P1 is still in memory: an error trap set now takes the next error, as it would in a fresh session."""
+    rr = d.exec(b'ON ERROR GOTO 900:ERROR 98')
+    if rr.errs or b'#E| 98 |' not in rr.out:
+        run.violate('C23', '%s:error-handling-state-survives:new-trap-not-honoured' % what,
+                    'ON ERROR GOTO 900:ERROR 98 -> %r (expected "#E| 98 | 65535 |" printed by the handler at 900)\n%s' % (rr, _ctx(cfg)))
+    d.exec(b'ON ERROR GOTO 0')
+
+
+def probe_program_loops(run, d, cfg, what):
+    """P1 is still in memory: its own NEXT and WEND find no loop of the previous execution to continue."""
+    nxt, wend = _loop_lines(cfg)
+    rr = d.exec(b'GOTO %d' % nxt)
+    if rr.errs != [(1, nxt)]:
+        run.violate('C23', '%s:for-stack-survives:next-in-program' % what,
+                    'GOTO %d (the NEXT of the loop the program was in) -> %r (expected NEXT without FOR in %d)\n%s' % (nxt, rr, nxt, _ctx(cfg)))
+    rr = d.exec(b'GOTO %d' % wend)
+    if rr.errs != [(30, wend)]:
+        run.violate('C23', '%s:while-stack-survives:wend-in-program' % what,
+                    'GOTO %d (the WEND of the loop the program was in) -> %r (expected WEND without WHILE in %d)\n%s' % (wend, rr, wend, _ctx(cfg)))
+
+
+def probe_fresh_program(run, d, cfg, what):
+    """
+    NEW, a fresh program, RUN: it prints nothing but its own output (no error or No RESUME from earlier
+    history), and RESUME in it is refused as there is no error to resume from. Ends with NEW.
+    """
+    d.exec(b'NEW')
+    d.exec(b'10 PRINT "#F1|"')
+    r = d.exec(b'RUN')
+    ev = parse_trace(r.out)
+    if ev != [('#', 'F1', [], True)] or r.errs:
+        bad = [e for e in ev if e[0] in ('stop', 'derr')]
+        run.violate('C23', '%s:fresh-program:%s' % (what, 'error-%s-reported' % bad[0][1] if bad else 'output-differs'),
+                    'NEW / 10 PRINT "#F1|" / RUN -> %r (expected just #F1|)\n%s' % (r, _ctx(cfg)))
+    d.exec(b'20 RESUME NEXT')
+    d.exec(b'30 PRINT "#F3|"')
+    r = d.exec(b'RUN')
+    ev = parse_trace(r.out)
+    if ev != [('#', 'F1', [], True), ('stop', 20, 20)]:
+        run.violate('C23', '%s:fresh-program:resume-not-refused' % what,
+                    'NEW / 10 PRINT "#F1|" / 20 RESUME NEXT / 30 PRINT "#F3|" / RUN -> %r '
+                    '(expected #F1| and RESUME without error in 20)\n%s' % (r, _ctx(cfg)))
+    d.exec(b'NEW')
+    run.probe('fresh-program-probed')
+
+
+def probe_random_file(run, d, m, root, what):
+    """
+    Cross-property observation (C25, not judged by C23's check): the random-access file that CHAIN left
+    open still works - what LSET/PUT write is what GET reads and what the host file holds.
+    """
+    if not m.files:
+        return
+    fn = min(m.files)
+    name, n = FILES[fn]
+    pat = ('after%d' % fn).ljust(n)[:n]
+    for s in ('FIELD #%d,%d AS Z7$' % (fn, n), 'LSET Z7$="%s"' % pat.rstrip(), 'PUT #%d,2' % fn, 'GET #%d,1' % fn):
+        rr = d.exec(b(s))
+        if rr.errs:
+            run.violate('C25', 'random-file-left-open-by-%s:statement-fails' % what, '%s -> %r' % (s, rr))
+            return
+    g1 = d.get(b'Z7$')
+    d.exec(b('GET #%d,2' % fn))
+    g2 = d.get(b'Z7$')
+    d.exec(b('CLOSE #%d' % fn))
+    with simfs.real_open(os.path.join(root, name), 'rb') as f:
+        data = f.read()
+    seq = 'FIELD #%d,%d AS Z7$ / LSET Z7$="%s" / PUT #%d,2 / GET #%d,1 / GET #%d,2 / CLOSE' % (fn, n, pat.rstrip(), fn, fn, fn)
+    if not _same(g1, rec_text(fn, 1)):
+        run.violate('C25', 'random-file-left-open-by-%s:get-reads-other-than-the-record' % what,
+                    '%s: after GET #%d,1 the FIELD variable reads %r, record 1 of the file is %r' % (seq, fn, g1, rec_text(fn, 1)))
+    if not _same(g2, pat):
+        run.violate('C25', 'random-file-left-open-by-%s:get-after-put-differs' % what,
+                    '%s: after GET #%d,2 the FIELD variable reads %r, PUT wrote %r' % (seq, fn, g2, pat))
+    want = b(rec_text(fn, 1) + pat + rec_text(fn, 3))
+    if data != want:
+        run.violate('C25', 'random-file-left-open-by-%s:host-file-differs' % what,
+                    '%s: the file holds %r, expected %r' % (seq, data, want))
+    m.files.discard(fn)
+    run.probe('random-file-probed-after-' + what)
+
+
+def judge_reset(run, d, cfg, reset, r0, fre_new, fre_prog, sk, after_failed_chain, label=None):
+    what = label or (reset + ('-after-failed-chain' if after_failed_chain else ''))
+    # P1 is in memory as entered (after CLEAR and RUN n)
+    p1_intact = reset in ('clear', 'run') and not after_failed_chain
     # memory accounting equals a fresh machine's (first, before the probes allocate anything)
     fre = d.eval(b'FRE("")')
     want = fre_new if reset == 'new' else fre_prog
@@ -683,7 +1127,13 @@ def judge_reset(run, d, cfg, reset, r0, fre_new, fre_prog, sk, after_failed_chai
     if rnd != r0:
         run.violate('C23', '%s:rnd-state-survives' % what, 'first RND after %s = %r, fresh session %r' % (what, rnd, r0))
     # stacks, trap
+    if p1_intact and cfg['trap_first']:
+        probe_new_trap(run, d, cfg, what)
     probe_stacks_and_trap(run, d, what)
+    if p1_intact and not cfg['trap_first']:
+        probe_new_trap(run, d, cfg, what)
+    if p1_intact:
+        probe_program_loops(run, d, cfg, what)
     # DEF FN, DEFtype, OPTION BASE
     rr = d.exec(b'Z9=FNA(1)')
     if rr.err != 18:
